@@ -2,6 +2,7 @@
 negative controls, for properties whose events are self-contained (no session state)."""
 import copy
 import json
+import shutil
 import os
 
 from common import *
@@ -258,7 +259,13 @@ def run_c05(tier, replay=None):
 
     def record(wd, tier, cases_file, payload):
         trace = os.path.join(wd, "trace.ndjson")
-        st = vh(["locks", "--out", trace, "--rounds", "1" if quick else "6", "--threads", "16",
+        # project directories written by the verifier's printer: every element kind the converter derives ids and shades
+        # from (window overhangs and fins, both kinds of shades, doors, several spaces), next to the shipped projects
+        synth = os.path.join(wd, "synth")
+        shutil.rmtree(synth, ignore_errors=True)
+        from bdl_projects import write_synthetic_projects
+        write_synthetic_projects(synth, 8 if quick else 60, seed())
+        st = vh(["locks", "--out", trace, "--rounds", "1" if quick else "6", "--threads", "16", "--extra-dirs", synth,
                  "--max-projects", "6" if quick else "12", "--generated", "6" if quick else "30", "--scratch", wd], timeout=7200)
         return trace, st
 
